@@ -16,7 +16,7 @@ if [ -f "$dir/demo.py" ]; then
   ( cd "$wt" && TYPHON_TREE="$wt" PYTHONPATH="$wt" timeout 600 /venv/bin/python -W ignore "$dir/demo.py" > "$wt.demo_patched.log" 2>&1 ); echo "demo on patched tree: rc=$? (want 1): $(tail -2 "$wt.demo_patched.log" | tr '\n' ' ' | cut -c1-300)"
 fi
 VERIF_REPO="$wt" "$verif/tools/baseline.sh" | tail -3
-priv="$verif/build/seedrun_${prop}_$$"; mkdir -p "$priv"; cp -r "$verif/coq" "$priv/coq"
+priv="$verif/build/seedrun_${prop}_$$"; mkdir -p "$priv"; cp -a "$verif/coq" "$priv/coq"
 ( cd "$verif" && VERIF_BUILD="$priv" VERIF_COQ="$priv/coq" VERIF_EVIDENCE="$priv/evidence" VERIF_REPO="$wt" timeout 3000 ./check "$prop" "$tier" > "$verif/build/logs/seed_${prop}_$(basename "$dir").log" 2>&1 ); rc=$?
 echo "check $prop $tier on patched tree: rc=$rc (want 1)"
 grep -E "VIOLATION|KNOWN|->" "$verif/build/logs/seed_${prop}_$(basename "$dir").log" | cut -c1-400 | head -8
